@@ -167,9 +167,10 @@ def judgePoly (c : PolyCase) (probes : List Pt) : Option String :=
   | some e => some e
   | none =>
     if rabs c.delta < (1 : Rat) / 2 then
-      -- insignificant offset: the region is unchanged
+      -- insignificant offset: the region is unchanged — outside the tolerance band around the boundary, like every other clause
+      -- (the cleaning union drops e.g. a hole that is a 'very small triangle', two vertices less than 2 units apart)
       firstSome probes (fun p =>
-        if segs.any (fun e => onSeg p e.1 e.2) then none
+        if dLe segs p (tolOf (arcEff c.arc c.delta) c.delta) then none
         else if inRes p == (wind c.input p != 0) then none
         else some s!"small delta changed the region at {p}")
     else
